@@ -889,6 +889,13 @@ def get_parsed_type(obj: model.Documentable) -> Optional[ParsedDocstring]:
     """
     Get the type of this attribute as parsed docstring.
     """
+    if obj.parsed_type is None and isinstance(obj, model.Attribute) and obj.docstring is not None:
+        # The type can be given by a "type" field in the attribute's own docstring,
+        # which might not have been rendered yet.
+        if ensure_parsed_docstring(obj) is not None and obj.parsed_docstring is not None:
+            for field in obj.parsed_docstring.fields:
+                if field.tag() == 'type':
+                    obj.parsed_type = field.body()
     parsed_type = obj.parsed_type
     if parsed_type is not None:
         return parsed_type
